@@ -2,7 +2,7 @@
 It contains no repository logic: only symbolic-input helpers and a
 dimension-only ImageView used to feed validation functions."""
 
-SUPPORT_MODULE = dict(file="src/lib.rs", name="fv_support", code="""
+SUPPORT_MODULE = dict(file="src/lib.rs", name="fv_support", vis="pub(crate) ", code="""
     use crate::pixels::*;
 
     /// An ImageView that only reports dimensions (rows are never produced).
